@@ -320,11 +320,19 @@ func (e *Engine) verifyFunc(pkgPath string, fc *FuncContract) *FuncResult {
 	// entry-state locations for replay: computed once, after execution has declared every heap the VCs read
 	func() {
 		defer func() { recover() }()
-		fv := c.entryFieldVars()
+		fv := c.entryFieldVars(nil)
 		hints := c.modelHints(fv)
+		withKeys := map[string][]fieldVar{}
 		for _, o := range c.obls {
 			o.Fields = fv
 			o.Hints = hints
+			if len(o.Skolems) > 0 && len(o.Skolems) <= 3 {
+				k := strings.Join(o.Skolems, " ")
+				if _, ok := withKeys[k]; !ok {
+					withKeys[k] = c.entryFieldVars(o.Skolems)
+				}
+				o.Fields = withKeys[k]
+			}
 		}
 	}()
 	res.Obls = c.obls
